@@ -533,6 +533,9 @@ int64_t cmi_pool_acquire_inner(struct cmb_resourcepool *rpp,
                     found = cmi_process_remove_holdable(caller, hrp);
                     cmb_assert_debug(found == true);
                 }
+
+                /* Someone else may be able to use what we gave back */
+                cmb_resourceguard_signal(&(rpp->guard));
             }
 
             cmb_assert_debug(rpp->in_use <= rpp->capacity);
